@@ -2,10 +2,10 @@
 //@ props C01
 //@ kind W
 //@ def quick STRN=6
-//@ def thorough STRN=12
+//@ def thorough STRN=11 DIGITS_ONLY=1
 //@ cbmc all --unwind 14 --unwinding-assertions
 //@ entry h_str_texttobin
-//@ note W: complete for every string of length < STRN (all 16-bit units; null allowed), END-aligned at its NUL; loops fully unwound, unwinding assertions on; thorough (11 characters) covers every 10-digit value, i.e. the unsigned int boundary
+//@ note W: complete for every string of length < STRN (all 16-bit units; null allowed), END-aligned at its NUL; loops fully unwound, unwinding assertions on; the thorough tier instead takes every string of up to 10 DECIMAL DIGITS (no other characters: the general 16-bit domain at this length does not finish), which covers the unsigned int boundary 4294967295 / 4294967296
 //@ note spec = XMLString.hpp: "leading and trailing whitespace is legal and will be ignored but the remainder must be all decimal digits"; the value is the value of the digit string; false for an empty/null string, a non-digit, or a value that does not fit unsigned int; one leading '+' (and the extra isspace characters VT/FF of strtoul) are tolerated by the implementation and allowed by this spec (xs:nonNegativeInteger allows the sign)
 //@ note stubs (trusted): replicate = copy into a harness array; ArrayJanitor lines dropped; transcode(XMLCh*) = narrowing of ASCII, '?' for everything else; strtoul = C11 7.22.1.4 base 10 model (skips isspace, optional sign, ERANGE above ULONG_MAX) on LP64 (unsigned long = 64 bits); trim and indexOf are the real bodies with XMLChar1_0::isWhitespace = production [3] S
 #define VERIF_DEFINE_GHOSTS
@@ -70,6 +70,9 @@ void h_str_texttobin(void)
   const XMLCh *s = S1.a + (STRN - n);
   VERIF_ASSUME(s[n - 1] == 0);
   for (XMLSize_t k = 0; k + 1 < n; k++) VERIF_ASSUME(s[k] != 0);
+#ifdef DIGITS_ONLY
+  for (XMLSize_t k = 0; k + 1 < n; k++) VERIF_ASSUME(s[k] >= '0' && s[k] <= '9');
+#endif
   verif_thrown = 0;
 
   bool ok = XMLString_textToBin(isnull ? (const XMLCh *)0 : s, &out, (MemoryManager *)0);
